@@ -160,6 +160,13 @@ module Z =
                  | Zneg q -> Pos.eqb p q
                  | _ -> false)
 
+  (** val max : coq_Z -> coq_Z -> coq_Z **)
+
+  let max n m =
+    match compare n m with
+    | Lt -> m
+    | _ -> n
+
   (** val abs : coq_Z -> coq_Z **)
 
   let abs = function
